@@ -225,10 +225,16 @@ class Scatterer(HoloPyObject):
 
 class CenteredScatterer(Scatterer):
     def __init__(self, center=None):
-        if center is not None and (np.isscalar(center) or len(center) != 3):
-            msg = ("center specified as {0}, "
-                   "center should be specified as (x, y, z)".format(center))
-            raise InvalidScatterer(self, msg)
+        if center is not None:
+            try:
+                shape = np.shape(center)
+            except ValueError:
+                # (ragged: entries that are sequences of different lengths)
+                shape = None
+            if shape != (3,):
+                msg = ("center specified as {0}, "
+                       "center should be specified as (x, y, z)".format(center))
+                raise InvalidScatterer(self, msg)
         self.center = center
 
 
